@@ -108,7 +108,7 @@ Fixpoint cont_loop (fuel : nat) (i : istream) (acc : list (list Z)) (usize : Z) 
                | Ok (lc, i3) =>
                    if negb (s_good i3) then (acc, usize, EndException)
                    else
-                     let usize' := (usize + 32 + geti lc F_usize) mod 2 ^ 64 in
+                     let usize' := (usize + (32 + geti lc F_usize) mod 2 ^ 32) mod 2 ^ 64 in      (* uint16 + uint32 is computed in 32 bits *)
                      match uncompress_lc lc with
                      | Err EAlloc => (acc, usize', EndForeign)
                      | Err _ => (acc, usize', EndException)
